@@ -10,6 +10,7 @@ CONSTANTS
   FilterMT = FALSE
   Capped = TRUE
   CapIter = 2
+  CapRule = "passes"
   PropOnly = FALSE
   TolAlg = 10000
   TolVar = 1000
